@@ -207,11 +207,12 @@ func (sp *Spec) ReadSpecFile(path, defaultPkg string) error {
 				key = pkg + "." + key
 			}
 			key = strings.TrimPrefix(key, "ext:")
-			cur = &Contract{Key: key, Pkg: pkg, Loops: map[int]*LoopSpec{}, Pos: rc.pos}
 			if old := sp.Contracts[key]; old != nil {
-				return fmt.Errorf("%s: duplicate contract for %s (first at %s)", rc.pos, key, old.Pos)
+				cur = old // a later block extends the contract
+			} else {
+				cur = &Contract{Key: key, Pkg: pkg, Loops: map[int]*LoopSpec{}, Pos: rc.pos}
+				sp.Contracts[key] = cur
 			}
-			sp.Contracts[key] = cur
 			curLoop = nil
 		case "end":
 			cur, curLoop = nil, nil
